@@ -58,7 +58,10 @@ func normalizeIntervalUnit(unit string) string {
 	if strings.HasSuffix(u, "s") && len(u) > 1 {
 		u = u[:len(u)-1]
 	}
-	// Title-case
+	// Title-case (an empty unit, e.g. a bare "SQL_TSI_" prefix, stays empty)
+	if u == "" {
+		return u
+	}
 	return strings.ToUpper(u[:1]) + u[1:]
 }
 
